@@ -246,7 +246,7 @@ Print Assumptions C09_example.
 From Coq Require Import Bool List NArith PArith FMapPositive.
 From OxiVerif Require Import DD.Sem DD.Build DD.Apply DD.ConfigApply DD.FamSpec DD.ZbddOps DD.ZbddOpsProofs DD.ZbddBool
   DD.ZbddBoolProofs DD.ZbddEvalProofs Mgr.LevelSwapZ Mgr.LevelSwapZProofs Mgr.HistoryExamples
-  Mgr.HistoryZ Mgr.HistoryZBase Mgr.HistoryZFam Mgr.HistoryZProofs Mgr.HistoryZThms Mgr.HistoryZSpec Mgr.HistoryZTie
+  Mgr.HistoryZ Mgr.HistoryZBase Mgr.HistoryZCache Mgr.HistoryZFam Mgr.HistoryZProofs Mgr.HistoryZThms Mgr.HistoryZSpec Mgr.HistoryZTie
   Mgr.HistoryZExamples.
 
 (* the family of sets of variables of an edge ([vmem]: the set [a] of variables, false outside the manager's variables, is a member) in terms of the level lists of C09 *)
@@ -277,12 +277,10 @@ Theorem C09_histz_family_fixed :
   zlossy C cget cadd ->
   forall cempty : C,
   (forall (k : N) (a : list ref) (m : list nat), cget cempty k a m = None) ->
-  forall cav : C -> C,
-  cav_ok C cget cav ->
   forall (ops : list zhop) (st st' : hstate_z C),
   HInvZ C cget st ->
-  zhops_pre gt C cget cadd cempty cav st ops ->
-  hrun_z gt C cget cadd cempty cav st ops = Some st' ->
+  zhops_pre gt C cget cadd cempty st ops ->
+  hrun_z gt C cget cadd cempty st ops = Some st' ->
   forall (x : N) (e : edge),
   (forall o : zhop, In o ops -> zhdst o <> Some x) ->
   hget (s_handles (hz_s C st)) x = Some e ->
@@ -303,12 +301,10 @@ Theorem C09_histz_slot_stable :
   zlossy C cget cadd ->
   forall cempty : C,
   (forall (k : N) (a : list ref) (m : list nat), cget cempty k a m = None) ->
-  forall cav : C -> C,
-  cav_ok C cget cav ->
   forall (ops : list zhop) (st st' : hstate_z C),
   HInvZ C cget st ->
-  zhops_pre gt C cget cadd cempty cav st ops ->
-  hrun_z gt C cget cadd cempty cav st ops = Some st' ->
+  zhops_pre gt C cget cadd cempty st ops ->
+  hrun_z gt C cget cadd cempty st ops = Some st' ->
   forall (x : N) (e : edge),
   (forall o : zhop, In o ops -> zhdst o <> Some x) ->
   hget (s_handles (hz_s C st)) x = Some e ->
@@ -329,11 +325,9 @@ Theorem C09_histz_add_vars :
   zlossy C cget cadd ->
   forall cempty : C,
   (forall (k : N) (a : list ref) (m : list nat), cget cempty k a m = None) ->
-  forall cav : C -> C,
-  cav_ok C cget cav ->
   forall (st : hstate_z C) (k : nat) (st' : hstate_z C),
   HInvZ C cget st ->
-  hstep_z gt C cget cadd cempty cav st (ZHAddVars k) = Some st' ->
+  hstep_z gt C cget cadd cempty st (ZHAddVars k) = Some st' ->
   HInvZ C cget st' /\
   nlevels (hz_s C st') = nlevels (hz_s C st) + k /\
   s_handles (hz_s C st') = s_handles (hz_s C st) /\
@@ -357,13 +351,11 @@ Theorem C09_histz_set_ops_spec :
   zlossy C cget cadd ->
   forall cempty : C,
   (forall (k : N) (a : list ref) (m : list nat), cget cempty k a m = None) ->
-  forall cav : C -> C,
-  cav_ok C cget cav ->
   forall (st : hstate_z C) (o : zhop) (d : N) (F : bfun),
   HInvZ C cget st ->
   hspec_z C st o d F ->
   exists st' : hstate_z C,
-  hstep_z gt C cget cadd cempty cav st o = Some st' /\ HInvZ C cget st' /\ hframe_z C st o st' /\ zholds C st' d F.
+  hstep_z gt C cget cadd cempty st o = Some st' /\ HInvZ C cget st' /\ hframe_z C st o st' /\ zholds C st' d F.
 Proof. exact hstep_z_spec. Qed.
 Print Assumptions C09_histz_set_ops_spec.
 
